@@ -1,5 +1,5 @@
 /-
-Structural tie of the simpler opcode cases of `peg_rule`: the statements of the CURRENT peg.c, translated by
+Structural tie of ALL 37 opcode cases of `peg_rule`: the statements of the CURRENT peg.c, translated by
 tools/gen/pegskel.py into programs of the IR `Peg/Skel.lean` (`Gen/PegSkel.lean`, regenerated on every run), executed by
 `Skel.run`, ARE the corresponding cases of the hand-written operational model `Op.step` - for every environment, sub-rule
 runner, state and position.  Built separately by checks/C12.py (like Peg/Tie.lean): on a tree where a case no longer does
